@@ -1735,3 +1735,33 @@ func init() {
 		return tuple{cell, iface{}}
 	}
 }
+
+func init() {
+	m := models
+	ident := func(ex *Exec, c *frame, fn *ssa.Function, a []value) value { return a[0] }
+	m["internal/abi.NoEscape"] = ident
+	m["strings.Join"] = func(ex *Exec, c *frame, fn *ssa.Function, a []value) value {
+		parts := a[0].([]value)
+		sep := a[1].(*Term)
+		var res *Term = ex.tc.StrConst("")
+		for i, p := range parts {
+			if i > 0 {
+				res = ex.tc.StrConcat(res, sep)
+			}
+			res = ex.tc.StrConcat(res, p.(*Term))
+		}
+		return res
+	}
+	m["strings.TrimPrefix"] = func(ex *Exec, c *frame, fn *ssa.Function, a []value) value {
+		s, p := a[0].(*Term), a[1].(*Term)
+		tc := ex.tc
+		if s.IsConst() && p.IsConst() {
+			return tc.StrConst(strings.TrimPrefix(s.s, p.s))
+		}
+		n := tc.StrLen(p)
+		return tc.Ite(tc.StrPrefixOf(p, s), tc.StrSubstr(s, n, tc.IntBin("-", tc.StrLen(s), n)), s)
+	}
+	m["net/textproto.TrimString"] = func(ex *Exec, c *frame, fn *ssa.Function, a []value) value {
+		return ex.tc.StrConst(textproto.TrimString(ex.constStr(a[0], "TrimString input")))
+	}
+}
